@@ -594,7 +594,7 @@ Definition rename (s : fsys) (v : view) (oldpath newpath : str) : fsys * res :=
                let move (h0 : heap) :=
                  (with_heap s (remove_child (add_child h0 np (pi_part (sr_pi rn)) oc) op (pi_part (sr_pi ro))), ROk) in
                match get h oc with
-               | Some (NDir _ _) =>
+               | Some (NDir _ mo) =>
                    let ndir := match sr_child rn with Some nc => node_is_dir h nc | None => false end in
                    if ndir && negb (is_not_exist (sr_err rn)) then
                      if match sr_child rn with Some nc => Nat.eqb nc oc | None => false end
@@ -606,6 +606,10 @@ Definition rename (s : fsys) (v : view) (oldpath newpath : str) : fsys * res :=
                    then (s, RFail EInvalidArgument)
                    else if negb (is_not_exist (sr_err rn))
                    then (s, RFail (if win v then EW_AccessDenied else ENotADirectory))
+                   (* a directory moved to another directory: write permission on the directory itself *)
+                   else if negb (Nat.eqb np op) && negb (us_admin (v_user v))
+                           && negb (check_permission mo OpenWrite (v_user v))
+                   then (s, RFail EPermDenied)
                    else move h
                | Some _ =>            (* file or symbolic link *)
                    if same then (s, ROk)
